@@ -513,6 +513,15 @@ func (w *Worktree) doAdd(path string, ignorePattern []gitignore.Pattern, skipSta
 	path = filepath.ToSlash(path)
 
 	if err != nil || !fi.IsDir() {
+		// Status does not list an ignored file that the index lacks, so one
+		// that HEAD still has reads as a staged deletion with an unmodified
+		// worktree. The path was named, and it is there: add it like any
+		// other ignored file, without asking Status.
+		if err == nil && s != nil {
+			if fs := s.File(path); fs.Staging == Deleted && fs.Worktree == Unmodified {
+				s = nil
+			}
+		}
 		added, h, err = w.doAddFile(cfg, idx, s, path, ignorePattern)
 	} else {
 		added, err = w.doAddDirectory(cfg, idx, s, path, ignorePattern)
